@@ -153,6 +153,14 @@ def join_blocks(
     if isinstance(block2, gtirb.CodeBlock):
         assert isinstance(block1, gtirb.CodeBlock)
 
+        # An empty block2 that block1 does not fall into is unreachable (it has
+        # no other incoming edges or start symbols), so its successors must
+        # not become successors of block1.
+        falls_into_block2 = not block1.size or any(
+            _is_fallthrough_edge(in_edge) and in_edge.source is block1
+            for in_edge in block2.incoming_edges
+        )
+
         for in_edge in tuple(block2.incoming_edges):
             if _is_fallthrough_edge(in_edge) and in_edge.source is block1:
                 ir.cfg.discard(in_edge)
@@ -166,7 +174,10 @@ def join_blocks(
                 ir.cfg.discard(in_edge)
 
         for out_edge in tuple(block2.outgoing_edges):
-            update_edge(out_edge, ir.cfg, source=block1)
+            if block2.size or falls_into_block2:
+                update_edge(out_edge, ir.cfg, source=block1)
+            else:
+                ir.cfg.discard(out_edge)
 
         remove_function_block_aux(cache, block2)
 
